@@ -152,7 +152,7 @@ def random_step(rng, pool):
     else:
         side = rng.choice('lr')
         tbl = L if side == 'l' else R
-        numeric = [c for c in tbl['cols'] if tbl['dtypes'].get(c) in ('int64', 'float64')]
+        numeric = [c for c in tbl['cols'] if str(tbl['dtypes'].get(c)).startswith(('int', 'float'))]
         col = rng.choice(numeric + [side + 'attr'])
         if rng.random() < 0.5:
             call = {'api': 'dataframe_column_to_str', 'ltable': tbl, 'col': col, 'inplace': False,
